@@ -4,8 +4,9 @@ CONSTANTS
   MaxSlot = 5
   MaxGen = 2
   MaxFaults = 1
+  MaxPersist = 2
   Variants = 1
   Kinds = {"att", "blk"}
-  FaultKinds = {"crash", "crashafter", "fail", "rerr", "rmiss"}
+  FaultKinds = {"crash", "crashafter", "fail", "failall", "rerr", "rmiss"}
   Weaken = "none"
 INVARIANT NoSlashable
